@@ -504,7 +504,9 @@ let () =
               (* destination slot keeps whatever it had: nothing to do *)
               ())
             else if starts_with res "err" then fail i "C03" "corr" ("harness error: " ^ l)
-            else
+            else (
+              (* "no dead node after gc" can only be asserted if the snapshot directly follows the gc *)
+              (match toks with [ "SNAP" ] | [ "GC" ] -> () | _ -> gc_pending := false; dropall_gc := !dropall_gc && false);
               match toks with
               | [ "SNAP" ] -> (try process_snapshot i res with Failure m -> fail i "C03" "corr" ("driver: " ^ m))
               | "VARS" :: k :: _ -> nvars := !nvars + int_of_string k
@@ -548,7 +550,7 @@ let () =
                 let p = mkpend i toks res [ slot_of dst ] in
                 invalidate (slot_of dst);
                 pending := p :: !pending
-              | _ -> ())
+              | _ -> ()))
         c.lines;
       stat "cases" 1;
       stat "steps" (List.length c.lines);
